@@ -16,7 +16,7 @@ PROPS['C14'] = dict(
         dict(name='interfere', variant='plain', harness='c14_isolation.cpp', quick=2000, thorough=40000),
         dict(name='fresh', variant='plain', harness='c14_isolation.cpp', quick=3200, thorough=48000, budget=120),
         dict(name='threads', variant='plain', harness='c14_isolation.cpp', quick=240, thorough=5000, jobs=4, budget=120),
-        dict(name='tsan', variant='tsan', harness='c14_isolation.cpp', quick=16, thorough=600, jobs=4, budget=600),
-        dict(name='tsan-light', variant='tsan', harness='c14_isolation.cpp', quick=64, thorough=1600, jobs=8, budget=600),
+        dict(name='tsan', variant='tsan', harness='c14_isolation.cpp', quick=16, thorough=240, jobs=4, budget=600),
+        dict(name='tsan-light', variant='tsan', harness='c14_isolation.cpp', quick=64, thorough=640, jobs=8, budget=600),
     ],
 )
